@@ -213,6 +213,20 @@ func (t *SymbolTable) ensureDistinctDefs() error {
 	return sortedErrors(msgs)
 }
 
+// inFixedOrder lists the errors combined in err, which were found in no particular order, in a fixed order.
+func inFixedOrder(err error) error {
+	multi, ok := err.(interface{ Unwrap() []error })
+	if !ok {
+		return err
+	}
+
+	msgs := generic.Transform(multi.Unwrap(), func(e error) string {
+		return e.Error()
+	})
+
+	return sortedErrors(msgs)
+}
+
 // sortedErrors combines messages collected while iterating over a hash table (in no particular order)
 // into one error that lists them in a fixed order.
 func sortedErrors(msgs []string) error {
